@@ -1,7 +1,7 @@
 (** C04 — model of the compile-time evaluator of erg on plain values (definitions only).
 
     Transcribed arm by arm from (the repaired code of)
-      crates/erg_compiler/ty/value.rs   ValueObj::{exact_int, floor_divmod, float_divmod, cmp_float_int, exact_f64,
+      crates/erg_compiler/ty/value.rs   ValueObj::{int_op, floor_divmod, float_divmod, cmp_nat_float, exact_f64, is_zero,
                                                    try_add, try_sub, try_mul, try_div, try_floordiv, try_pow, try_mod,
                                                    try_gt, try_ge, try_lt, try_le, try_eq, try_ne, try_or}
       crates/erg_compiler/context/eval.rs  Context::{eval_bin, eval_or, eval_and, eval_unary_val}
@@ -53,7 +53,9 @@ Definition cast (t : ity) (v : Z) : Z := wrap t v.
 (** `t::try_from(v).ok()` *)
 Definition try_from (t : ity) (v : Z) : option Z := if in_range t v then Some v else None.
 
-(** i128::checked_mul / checked_div / checked_rem *)
+(** i128::checked_add / checked_sub / checked_mul / checked_div / checked_rem *)
+Definition checked_add (a b : Z) : option Z := try_from I128 (a + b).
+Definition checked_sub (a b : Z) : option Z := try_from I128 (a - b).
 Definition checked_mul (a b : Z) : option Z := try_from I128 (a * b).
 Definition checked_div (a b : Z) : option Z :=
   if b =? 0 then None else if (a =? ity_lo I128) && (b =? -1) then None else Some (Z.quot a b).
@@ -175,17 +177,30 @@ Inductive binop := OAdd | OSub | OMul | ODiv | OFloorDiv | OPow | OMod | OGt | O
 Inductive unop := UPos | UNeg | UInvert | UNot.
 
 (** * value.rs helpers *)
-(** ValueObj::exact_int(v: i128, int: bool) *)
+(** the tail of ValueObj::int_op: the exact result [v] as a value *)
 Definition exact_int (v : Z) (int : bool) : option value :=
   match try_from I32 v, try_from U64 v with
   | Some i, o => if int || (i <? 0) then Some (VInt i) else option_map VNat o
   | None, o => option_map VNat o
   end.
 
-(** an integer operand as i128 (`l as i128`) *)
+(** an i32 / u64 operand widened to i128 (`.into()`) *)
 Definition as_i128 (v : Z) : Z := cast I128 v.
 
-(** ValueObj::floor_divmod(l: i128, r: i128) -> Option<(i128, i128)> *)
+Definition some_float (f : spec_float) : res (option value) := Ok (Some (VFloat f)).
+Definition some_bool (b : bool) : res (option value) := Ok (Some (VBool b)).
+Definition none : res (option value) := Ok None.
+
+(** ValueObj::int_op(l, r, int, op) *)
+Definition int_op (l r : Z) (int : bool) (op : Z -> Z -> res (option Z)) : res (option value) :=
+  bind (op (as_i128 l) (as_i128 r)) (fun o =>
+  match o with
+  | Some v => Ok (exact_int v int)
+  | None => none
+  end).
+Definition pure_op (f : Z -> Z -> option Z) (l r : Z) : res (option Z) := Ok (f l r).
+
+(** ValueObj::floor_divmod(l: i128, r: i128) -> Option<(i128, i128)>; `q - 1` and `m + r` are plain i128 operators *)
 Definition floor_divmod (debug : bool) (l r : Z) : res (option (Z * Z)) :=
   match checked_div l r, checked_rem l r with
   | Some q, Some m =>
@@ -205,16 +220,16 @@ Definition float_divmod (l r : spec_float) : spec_float * spec_float :=
     then if negb (Bool.eqb (F_lt r F_zero) (F_lt m0 F_zero)) then (F_add m0 r, F_sub d0 F_one) else (m0, d0)
     else (F_copysign F_zero r, d0) in
   let q :=
-    if F_nonzero d
-    then let f := F_floor d in if F_lt F_half (F_sub d f) then F_add f F_one else f
-    else F_copysign F_zero (F_div l r) in
+    if F_eq d F_zero then F_copysign F_zero (F_div l r)
+    else if F_lt F_half (F_sub d (F_floor d)) then F_add (F_floor d) F_one
+    else F_floor d in
   (q, m).
 
-(** ValueObj::cmp_float_int(f: f64, n: i128) -> Option<Ordering>: exact ordering of [f] relative to [n] *)
-Definition cmp_float_int (f : spec_float) (n : Z) : option comparison :=
+(** the ordering computed by ValueObj::cmp_nat_float(n: u64, f: f64, ..): of [n] relative to [f], exact *)
+Definition cmp_nat_float (n : Z) (f : spec_float) : option comparison :=
   let nf := Z2F n in
-  match F_cmp f nf with
-  | Some Eq => Some (Z.compare (F2Z_sat nf) n)
+  match F_cmp nf f with
+  | Some Eq => Some (Z.compare n (F2Z_sat nf))     (* (n as u128).cmp(&(nf as u128)) *)
   | o => o
   end.
 
@@ -222,6 +237,7 @@ Definition cmp_float_int (f : spec_float) (n : Z) : option comparison :=
 Definition exact_f64 (n : Z) : option spec_float :=
   let f := Z2F n in if F2Z_sat f =? n then Some f else None.
 
+(** ValueObj::is_zero *)
 Definition is_zero (v : value) : bool :=
   match v with
   | VInt i => i =? 0
@@ -230,21 +246,14 @@ Definition is_zero (v : value) : bool :=
   | _ => false
   end.
 
-Definition some_float (f : spec_float) : res (option value) := Ok (Some (VFloat f)).
-Definition some_bool (b : bool) : res (option value) := Ok (Some (VBool b)).
-Definition none : res (option value) := Ok None.
-
-Definition int_result (debug : bool) (r : res Z) (int : bool) : res (option value) :=
-  bind r (fun v => Ok (exact_int v int)).
-
 (** * ValueObj::try_add *)
 Definition try_add (debug : bool) (a b : value) : res (option value) :=
   match a, b with
-  | VInt l, VInt r => int_result debug (arith debug I128 (as_i128 l + as_i128 r)) true
-  | VNat l, VNat r => int_result debug (arith debug I128 (as_i128 l + as_i128 r)) false
+  | VInt l, VInt r => int_op l r true (pure_op checked_add)
+  | VNat l, VNat r => int_op l r false (pure_op checked_add)
   | VFloat l, VFloat r => some_float (F_add l r)
-  | VInt l, VNat r => int_result debug (arith debug I128 (as_i128 l + as_i128 r)) false
-  | VNat l, VInt r => int_result debug (arith debug I128 (as_i128 l + as_i128 r)) true
+  | VInt l, VNat r => int_op l r false (pure_op checked_add)
+  | VNat l, VInt r => int_op l r true (pure_op checked_add)
   | VFloat l, VNat r => some_float (F_add l (Z2F r))
   | VInt l, VFloat r => some_float (F_add (Z2F l) r)
   | VNat l, VFloat r => some_float (F_add (Z2F l) r)
@@ -255,11 +264,11 @@ Definition try_add (debug : bool) (a b : value) : res (option value) :=
 (** * ValueObj::try_sub *)
 Definition try_sub (debug : bool) (a b : value) : res (option value) :=
   match a, b with
-  | VInt l, VInt r => int_result debug (arith debug I128 (as_i128 l - as_i128 r)) true
-  | VNat l, VNat r => int_result debug (arith debug I128 (as_i128 l - as_i128 r)) true
+  | VInt l, VInt r => int_op l r true (pure_op checked_sub)
+  | VNat l, VNat r => int_op l r true (pure_op checked_sub)
   | VFloat l, VFloat r => some_float (F_sub l r)
-  | VInt l, VNat r => int_result debug (arith debug I128 (as_i128 l - as_i128 r)) false
-  | VNat l, VInt r => int_result debug (arith debug I128 (as_i128 l - as_i128 r)) false
+  | VInt l, VNat r => int_op l r false (pure_op checked_sub)
+  | VNat l, VInt r => int_op l r false (pure_op checked_sub)
   | VFloat l, VNat r => some_float (F_sub l (Z2F r))
   | VNat l, VFloat r => some_float (F_sub (Z2F l) r)
   | VFloat l, VInt r => some_float (F_sub l (Z2F r))
@@ -268,11 +277,7 @@ Definition try_sub (debug : bool) (a b : value) : res (option value) :=
   end.
 
 (** * ValueObj::try_mul *)
-Definition mul_result (l r : Z) (int : bool) : res (option value) :=
-  match checked_mul (as_i128 l) (as_i128 r) with
-  | Some v => Ok (exact_int v int)
-  | None => none
-  end.
+Definition mul_result (l r : Z) (int : bool) : res (option value) := int_op l r int (pure_op checked_mul).
 Definition try_mul (debug : bool) (a b : value) : res (option value) :=
   match a, b with
   | VInt l, VInt r => mul_result l r false
@@ -310,11 +315,7 @@ Definition try_div (debug : bool) (a b : value) : res (option value) :=
 
 (** * ValueObj::try_floordiv / try_mod *)
 Definition divmod_result (debug : bool) (l r : Z) (int : bool) (pick : Z * Z -> Z) : res (option value) :=
-  bind (floor_divmod debug (as_i128 l) (as_i128 r)) (fun o =>
-  match o with
-  | Some qm => Ok (exact_int (pick qm) int)
-  | None => none
-  end).
+  int_op l r int (fun l r => bind (floor_divmod debug l r) (fun o => Ok (option_map pick o))).
 Definition try_floordiv (debug : bool) (a b : value) : res (option value) :=
   if is_zero b then none else
   match a, b with
@@ -345,14 +346,12 @@ Definition try_mod (debug : bool) (a b : value) : res (option value) :=
   end.
 
 (** * ValueObj::try_pow *)
-Definition pow_result (l r : Z) (int : bool) : res (option value) :=
+Definition pow_op (l r : Z) : option Z :=      (* |l, r| l.checked_pow(r.try_into().ok()?) *)
   match try_from U32 r with
-  | Some e => match checked_pow (as_i128 l) e with
-              | Some v => Ok (exact_int v int)
-              | None => none
-              end
-  | None => none
+  | Some e => checked_pow l e
+  | None => None
   end.
+Definition pow_result (l r : Z) (int : bool) : res (option value) := int_op l r int (pure_op pow_op).
 Definition try_pow (debug : bool) (a b : value) : res (option value) :=
   match a, b with
   | VInt l, VInt r => pow_result l r true
@@ -377,8 +376,8 @@ Definition try_cmp_with (on_cmp : comparison -> bool) (on_nan : bool) (bool_ok :
   | VFloat l, VFloat r => some_bool (cmp_test on_cmp on_nan (F_cmp l r))
   | VInt l, VNat r => some_bool (on_cmp (Z.compare (as_i128 l) (as_i128 r)))
   | VNat l, VInt r => some_bool (on_cmp (Z.compare (as_i128 l) (as_i128 r)))
-  | VFloat l, VNat r => some_bool (cmp_test on_cmp on_nan (cmp_float_int l (as_i128 r)))
-  | VNat l, VFloat r => some_bool (cmp_test on_cmp on_nan (option_map flip (cmp_float_int r (as_i128 l))))
+  | VFloat l, VNat r => some_bool (cmp_test on_cmp on_nan (option_map flip (cmp_nat_float r l)))
+  | VNat l, VFloat r => some_bool (cmp_test on_cmp on_nan (cmp_nat_float l r))
   | VFloat l, VInt r => some_bool (cmp_test on_cmp on_nan (F_cmp l (Z2F r)))
   | VInt l, VFloat r => some_bool (cmp_test on_cmp on_nan (F_cmp (Z2F l) r))
   | VBool l, VBool r => if bool_ok then some_bool (on_cmp (Z.compare (Z.b2z l) (Z.b2z r))) else none
@@ -470,8 +469,8 @@ Definition eval_unary (debug : bool) (op : unop) (a : value) : res (option value
            | _ => none
            end
   | UNeg => match a with
-           | VNat n => int_result debug (arith debug I128 (- as_i128 n)) true
-           | VInt i => int_result debug (arith debug I128 (- as_i128 i)) true
+           | VNat n => int_op 0 n true (pure_op checked_sub)
+           | VInt i => int_op 0 i true (pure_op checked_sub)
            | VFloat f => some_float (F_neg f)
            | _ => none
            end
